@@ -13,6 +13,7 @@ import (
 	"fmt"
 	"path/filepath"
 	"reflect"
+	"os"
 	"runtime"
 	"sort"
 	"strconv"
@@ -500,6 +501,10 @@ func (s *Sched) loop(maxSteps int) {
 		if len(en) == 0 {
 			if s.timeStep > 0 && advances < s.maxAdv {
 				advances++
+				if os.Getenv("VERIF_CS_DUMP") != "" && advances == 1 { // developer aid: who is waiting for the clock
+					buf := make([]byte, 1<<20)
+					os.Stderr.Write(buf[:runtime.Stack(buf, true)])
+				}
 				time.Sleep(s.timeStep) // nothing can move: let the virtual clock reach the next timer
 				step--
 
